@@ -34,11 +34,15 @@ def cmd_replay(args):
     ok, res, doc = core.replay(args.file, repo=args.repo)
     if ok:
         if doc.get("trace_digest") and doc["trace_digest"] != res.digest:
-            print("HARNESS-ERROR: same violation but a different trace digest", file=sys.stderr)
-            return 2
+            # The same oracle fails with the same signature, but the recorded events differ: what the code under
+            # test returned depends on something the plan does not determine (e.g. object addresses).  That is
+            # itself part of the finding; the harness is deterministic (selftest-determinism, double runs).
+            print("NOTE: same violation, different trace digest - the code under test behaves nondeterministically")
         print(f"VIOLATION property={doc['property']} replay={os.path.abspath(args.file)}")
         return 1
     print("replay: violation did not reproduce on this tree")
+    if doc.get("reproducible") is False:
+        print("NOTE: recorded as observed once and not reproducible from its plans (state outside the plan)")
     return 0
 
 
